@@ -300,9 +300,6 @@ func rewritePackage(rel string) {
 		if *variant == "sched" && rel == "cmd/keymasterd" {
 			m = rewriteSched(fset, f)
 		}
-		if *variant == "sched" && rel == "keymasterd/eventnotifier" {
-			m += rewriteSyncFields(f, map[string]bool{"EventNotifier": true})
-		}
 		if n+m > 0 {
 			writeFile(fset, f, p, filepath.Join(rel, filepath.Base(p)))
 		}
